@@ -214,22 +214,17 @@ func fieldsOf(line string) (id string, kv map[string]string, order []string) {
 	return p[0], kv, order
 }
 
-func run(r *vrt.Run) {
-	r.Rule("tx cases: (tx type) x (signer Frontier..Prague, LatestSignerForChainID) x (chain id 0,1,1337,2^31,2^63,2^64+7,2^200,random) x random/boundary keys, each with the cross-signer matrix and 16 tamperings of the valid signature; range cases: structured (v,r,s) triples; backend cases: sign/recover/verify/decompress/compress/unmarshal on valid and mutated inputs (r,s at 0,1,N/2,N-1,N,N+1,P-1,P,2^256-1; recovery ids 0..255; malleated and truncated signatures; hybrid/compressed/corrupted public keys). non-trivial signature = (tx type, signer, chain-id class, tamper kind, outcome) resp. (backend op, input class, result pattern)")
-	ag = agg.New(r)
-	shrink := 1
-	if r.Race() {
-		shrink = 8
-	}
-	nTx := r.N(3000, 100000) / shrink
-	nRange := r.N(10000, 300000) / shrink
-	nBackend := r.N(20000, 2000000) / shrink
+// offsets of one round inside the three index spaces (backend, tx, range cases).
+type offsets struct{ b, tx, rg int }
 
+// round generates, evaluates and cross-compares one chunk of the workload (memory stays
+// bounded in the thorough tier). It returns false if the run became inconclusive.
+func round(r *vrt.Run, sib string, o offsets, nBackend, nTx, nRange int) bool {
 	// ---- corpus
 	cases := make([]bcase, nBackend)
 	exps := make([]*expectation, nBackend)
 	vrt.Par(nBackend, 0, func(i int) {
-		rng := r.Rand("backend", i)
+		rng := r.Rand("backend", o.b+i)
 		c, pub := genBackendCase(rng)
 		cases[i] = c
 		exps[i] = expect(c, pub)
@@ -237,11 +232,11 @@ func run(r *vrt.Run) {
 	corpus := filepath.Join(r.Scratch, "c03-corpus.txt")
 	if err := writeCorpus(corpus, cases); err != nil {
 		r.Inconclusive("cannot write corpus: %v", err)
-		return
+		return false
 	}
 
 	// ---- this build
-	mine := evalAll(r, cases, nTx, nRange, true)
+	mine := evalAll(r, cases, o, nTx, nRange, true)
 	for i, c := range cases {
 		_, kv, order := fieldsOf(mine[i])
 		res := make([]string, 0, len(order))
@@ -257,46 +252,34 @@ func run(r *vrt.Run) {
 				pattern = append(pattern, "val")
 			}
 		}
-		judgeBackend(r, i, c, exps[i], res)
+		judgeBackend(r, o.b+i, c, exps[i], res)
 		ag.Count(i, "backend_"+c.kind, 1)
 		ag.Eval(i, fmt.Sprintf("be/%s/%s/%s", c.kind, c.class, strings.Join(pattern, ",")))
-		if i < 3 {
+		if o.b+i < 3 {
 			r.Sample(map[string]any{"kind": c.kind, "class": c.class, "a": hx(c.a), "b": hx(c.b), "c": hx(c.c), "outputs": res})
 		}
 	}
 	if !cgoBuild {
-		ag.Flush()
-		r.Inconclusive("this is the CGO_ENABLED=0 helper build: in-process checks ran, the cross-build comparison is done by the cgo variant")
-		return
+		return true // in-process checks only; run() records why this is inconclusive
 	}
 
 	// ---- the other build
-	sib, err := siblingBinary()
-	if err != nil {
-		ag.Flush()
-		r.Inconclusive("pure-Go build of this harness not found (%v): cross-build comparison not done", err)
-		return
-	}
 	outPath := filepath.Join(r.Scratch, "c03-nocgo-out.txt")
 	wd := time.Duration(r.N(900, 7200)) * time.Second
-	if err := runSibling(r, sib, corpus, outPath, nTx, nRange, wd); err != nil {
-		ag.Flush()
+	if err := runSibling(r, sib, corpus, outPath, o, nTx, nRange, wd); err != nil {
 		r.Inconclusive("pure-Go child failed: %v", err)
-		return
+		return false
 	}
 	raw, err := os.ReadFile(outPath)
 	if err != nil {
-		ag.Flush()
 		r.Inconclusive("pure-Go child output: %v", err)
-		return
+		return false
 	}
 	theirs := strings.Split(strings.TrimRight(string(raw), "\n"), "\n")
 	if len(theirs) != len(mine) {
-		ag.Flush()
 		r.Inconclusive("pure-Go child produced %d lines, expected %d", len(theirs), len(mine))
-		return
+		return false
 	}
-	r.Extra("nocgo_binary", sib)
 	for i := range mine {
 		ag.Count(i, "crossbuild_lines_compared", 1)
 		if mine[i] == theirs[i] {
@@ -316,7 +299,7 @@ func run(r *vrt.Run) {
 				}
 			}
 			if i < len(cases)+nTx {
-				w["replay"] = fmt.Sprintf("tx case %d (VERIF_SEED=%d)", i-len(cases), r.Seed)
+				w["replay"] = fmt.Sprintf("tx case %d (VERIF_SEED=%d)", o.tx+i-len(cases), r.Seed)
 			}
 			r.Violation("crossbuild:tx-level:"+strings.TrimRight(first, "0123456789/"), fmt.Sprintf("transaction-level outputs differ between cgo and pure-Go builds at %q: %s vs %s", first, a[first], b[first]), w)
 			continue
@@ -337,24 +320,72 @@ func run(r *vrt.Run) {
 				cls = "panic-differs"
 			}
 			fp := fmt.Sprintf("crossbuild:%s:%s:%s", k, cls, fpClass(c))
-			if c.kind == "sign" && k == "sig" && cls == "output-differs" {
-				// both produced a signature: different bytes but both valid for the key?
-				other := unhx(b[k])
-				pub, e := crypto.Ecrecover(c.b, other)
-				if e == nil && a["pub"] != "" && hx(pub) == a["pub"] && crypto.VerifySignature(pub, c.b, other[:64]) {
-					fp = "crossbuild:sign-bytes-differ"
-					if new(big.Int).SetBytes(c.b).Cmp(secpN) >= 0 {
-						// RFC 6979 bits2octets reduces the digest mod N; libsecp256k1 does not
-						fp = "crossbuild:sign-bytes-differ:hash>=N"
+			if c.kind == "sign" && k == "sig" && cls == "output-differs" && a["pub"] != "" && a["pub"] == b["pub"] {
+				// Both builds produced a signature. Known root cause with its own fingerprint:
+				// RFC 6979 (decred) reduces the digest mod N before deriving the nonce,
+				// libsecp256k1 feeds the raw 32 bytes, so the nonces differ iff digest >= N. The
+				// fingerprint is used only if the digest is >= N and both signatures verify under
+				// the key and recover to it; any other difference keeps a different name.
+				pub := unhx(a["pub"])
+				valid := func(sig []byte) bool {
+					if len(sig) != 65 {
+						return false
 					}
+					rec, e := crypto.Ecrecover(c.b, sig)
+					return e == nil && bytes.Equal(rec, pub) && crypto.VerifySignature(pub, c.b, sig[:64])
+				}
+				switch bothValid := valid(unhx(a[k])) && valid(unhx(b[k])); {
+				case bothValid && len(c.b) == 32 && new(big.Int).SetBytes(c.b).Cmp(secpN) >= 0:
+					fp = "crossbuild:sign-bytes-differ:hash>=N"
+				case bothValid:
+					fp = "crossbuild:sign-bytes-differ:hash<N"
+				default:
+					fp = "crossbuild:sign:invalid-signature-in-one-build"
 				}
 			}
 			r.Violation(fp, fmt.Sprintf("%s on a %s case (%s): cgo build %s, pure-Go build %s", k, c.kind, c.class, a[k], b[k]), w)
 			break
 		}
 	}
+	return true
+}
+
+func run(r *vrt.Run) {
+	r.Rule("tx cases: (tx type) x (signer Frontier..Prague, LatestSignerForChainID) x (chain id 0,1,1337,2^31,2^63,2^64+7,2^200,random) x random/boundary keys, each with the cross-signer matrix and 16 tamperings of the valid signature; range cases: structured (v,r,s) triples; backend cases: sign/recover/verify/decompress/compress/unmarshal on valid and mutated inputs (r,s at 0,1,N/2,N-1,N,N+1,P-1,P,2^256-1; recovery ids 0..255; malleated and truncated signatures; hybrid/compressed/corrupted public keys). non-trivial signature = (tx type, signer, chain-id class, tamper kind, outcome) resp. (backend op, input class, result pattern)")
+	ag = agg.New(r)
+	shrink := 1
+	if r.Race() {
+		shrink = 8
+	}
+	nTx := r.N(3000, 100000) / shrink
+	nRange := r.N(10000, 300000) / shrink
+	nBackend := r.N(20000, 2000000) / shrink
+
+	var sib string
+	if cgoBuild {
+		var err error
+		if sib, err = siblingBinary(); err != nil {
+			r.Inconclusive("pure-Go build of this harness not found (%v): cross-build comparison not done", err)
+		}
+		r.Extra("nocgo_binary", sib)
+	} else {
+		r.Inconclusive("this is the CGO_ENABLED=0 helper build: in-process checks ran, the cross-build comparison is done by the cgo variant")
+	}
+	const chunk = 200000
+	rounds := (nBackend + chunk - 1) / chunk
+	r.Extra("rounds", rounds)
+	for k := 0; k < rounds; k++ {
+		o := offsets{b: k * chunk, tx: k * (nTx / rounds), rg: k * (nRange / rounds)}
+		nb := min(chunk, nBackend-o.b)
+		if cgoBuild && sib == "" {
+			break
+		}
+		if !round(r, sib, o, nb, nTx/rounds, nRange/rounds) {
+			break
+		}
+	}
 	ag.Flush()
-	r.Require("crossbuild_lines_compared", int64(nBackend+nTx))
+	r.Require("crossbuild_lines_compared", int64(nBackend+nTx/rounds*rounds))
 	r.Require("inverse_ok", int64(nTx/4))
 	r.Require("sighash_checks", int64(nTx/4))
 	r.Require("backend_sign_inverse_ok", int64(nBackend/20))
